@@ -111,11 +111,16 @@ def run(ctx):
     res.check(l_ok, "C04-R1", "Packet():payload-length", c.get("loc"), "payload length <- MessageHeader::getPayloadLength",
               "payload length is taken from %s" % sorted(getters_in(ctor, c["args"][2], MH)))
     # header views are at offset 0 of data
-    hv = strip_all_casts(smh[0]["args"][1])
+    # the header argument: the one whose type is MessageHeader (whatever its position)
+    hargs = [a for a in smh[0].get("args", []) if "MessageHeader" in ((strip(a).get("t") or {}).get("s") or (strip_all_casts(a).get("t") or {}).get("s") or "")]
+    if not hargs:
+        raise Broken("Packet constructor: setMessageHeader is not given a MessageHeader")
+    harg = hargs[0]
+    hv = strip_all_casts(harg)
     while hv.get("k") in ("construct",) and hv.get("args"):
         hv = strip_all_casts(hv["args"][0])
-    hd, _ = depends(ctor, smh[0]["args"][1])
-    plus = any(x.get("k") == "bin" and x.get("op") in ("+", "-") for x in facts.walk(smh[0]["args"][1]))
+    hd, _ = depends(ctor, harg)
+    plus = any(x.get("k") == "bin" and x.get("op") in ("+", "-") for x in facts.walk(harg))
     at0 = datap in hd and not plus
     if not at0 and hv.get("k") == "ref" and hv.get("dk") == "local" and (hv.get("t") or {}).get("rec") == MH:
         # a local MessageHeader filled by one raw copy of sizeof(MessageHeader) bytes from offset 0 of the message
@@ -133,7 +138,20 @@ def run(ctx):
     from cmpverif import tables
     sel = [prm["decl"] for prm in f.params if (prm["t"].get("s") or "").replace("const ", "").strip().endswith("MessageType")]
     if len(sel) != 1:
-        raise Broken("Packet::setMessageHeader: expected one MessageType parameter")
+        # the id field of a message header is chosen by the *frame's* message type (the constructor's argument); a choice made from
+        # the packet's own state (e.g. the payload's type, which is 0 for a payload kept as invalid) loses the id of such packets
+        res.bad("C04-R1", "setMessageHeader:selector", f.loc,
+                "Packet::setMessageHeader does not receive the frame's message type as a parameter: which id field it copies is decided by "
+                "something else (%s) — for a message whose payload is marked invalid the interface / vendor id of the wire is not reported" %
+                sorted(callee_name(c) for c in f.calls() if "MessageType" in (callee_name(c) or ""))[:3])
+        sel = [None]
+    elif True:
+        # and the argument bound to it in the constructor is the constructor's own message-type parameter
+        ca = facts.effective_call(smh[0]).get("args", [])
+        pidx = [prm["decl"] for prm in f.params].index(sel[0])
+        bound = strip_all_casts(ca[pidx]) if pidx < len(ca) else {}
+        res.check(bound.get("decl") == ctor.params[0]["decl"], "C04-R1", "Packet():message-type-arg", smh[0].get("loc"),
+                  "setMessageHeader receives the constructor's frame message type", "setMessageHeader is not given the frame's message type")
     setters = {row["setter"] for row in spec["message_header"]}
     other = max(en.values()) + 1
 
@@ -143,9 +161,13 @@ def run(ctx):
                                 lambda c: callee_name(c) in setters)
         except tables.Unsupported as ex:
             raise Broken("Packet::setMessageHeader is not a table over the message type: %s" % ex)
-    per_type = {nm: executed(v) for nm, v in en.items()}
-    per_type["<other>"] = executed(other)
-    for row in spec["message_header"]:
+    if sel[0] is None:
+        per_type = None
+    else:
+        per_type = {nm: executed(v) for nm, v in en.items()}
+    if per_type is not None:
+        per_type["<other>"] = executed(other)
+    for row in (spec["message_header"] if per_type is not None else []):
         tag = row["setter"].split("::")[-1]
         if "message_types" not in row:
             cs = list(f.calls(row["setter"]))
